@@ -142,6 +142,18 @@ func (s *SimP4) Resize(name string, size int64) {
 	}
 }
 
+// ResizeTable changes the capacity of a table at run time (a switch whose table
+// is full answers an INSERT with RESOURCE_EXHAUSTED) and returns the old size.
+func (s *SimP4) ResizeTable(name string, size int64) int64 {
+	t := s.tabByID[s.nameToID[name]]
+	if t == nil {
+		return -1
+	}
+	old := t.Size
+	t.Size = size
+	return old
+}
+
 func (s *SimP4) ID(name string) uint32 { return s.nameToID[name] }
 
 func (s *SimP4) Table(name string) map[string]*p4.TableEntry { return s.Tables[s.nameToID[name]] }
@@ -405,6 +417,7 @@ func (s *SimP4) applyUpdate(u *p4.Update) *p4.Error {
 				return p4err(codes.AlreadyExists, "entry exists")
 			}
 			if int64(len(tab)) >= s.tabByID[e.TableId].Size {
+				s.Fired["p4-table-full"]++
 				return p4err(codes.ResourceExhausted, "table full")
 			}
 			tab[k] = proto.Clone(e).(*p4.TableEntry)
